@@ -364,3 +364,112 @@ pub fn walk(sink: &mut Sink, seed: u64, run_id: u64, setup: Setup, opts: &WalkOp
     }
     r
 }
+
+
+/// Wide-range walk for C16: amounts up to 10^27 base units, exchange rates within [10^-3, 10^3], every
+/// fee rate and period the validators accept. The only oracle is "a result or a typed error, never a
+/// panic"; numeric conformance at this scale is decided on the arithmetic kernel (C04 vector path).
+pub fn walk_wide(sink: &mut Sink, seed: u64, run_id: u64, steps: usize, extreme_cfg: bool) -> Run {
+    let mut rng = StdRng::seed_from_u64(seed.wrapping_mul(0xD1B54A32D192ED03).wrapping_add(run_id));
+    let scale: u128 = *[1u128, 1_000_000, 1_000_000_000_000, 1_000_000_000_000_000_000, 1_000_000_000_000_000_000_000_000].choose(&mut rng).unwrap();
+    let fees: [u128; 8] = [0, 1, 99_999, 100_000, 100_001, 1_000_000_000_000, u64::MAX as u128, u128::MAX];
+    let setup = Setup {
+        same_prefix: rng.gen_bool(0.3),
+        treasury: rng.gen_bool(0.5),
+        oracle: rng.gen_bool(0.5),
+        fee: if extreme_cfg { *fees.choose(&mut rng).unwrap() } else { *[0u128, 1, 10_000, 100_000].choose(&mut rng).unwrap() },
+        min_stake: *[0u128, 1, 1000].choose(&mut rng).unwrap() * scale.min(1_000_000),
+        batch_period: if extreme_cfg { *[0u64, 1, 100, u64::MAX / 2, u64::MAX - 1_700_000_000, u64::MAX].choose(&mut rng).unwrap() } else { 100 },
+        unbonding: if extreme_cfg { *[0u64, 1000, u64::MAX / 2, u64::MAX].choose(&mut rng).unwrap() } else { 1000 },
+        monitors: vec!["mon1".into()],
+        sub: "stTIA".into(),
+    };
+    let mut r = Run::new(setup, run_id);
+    let big = |rng: &mut StdRng| -> u128 {
+        let cap = 1_000_000_000_000_000_000_000_000_000u128; // 10^27
+        match rng.gen_range(0..6) {
+            0 => cap,
+            1 => 1,
+            2 => scale,
+            _ => (rng.gen_range(1..1000u128) * scale).min(cap),
+        }
+    };
+    if !r.start(sink) {
+        return r;
+    }
+    r.apply(sink, &json!({"m":"resume_contract","s":"admin","n":"0","l":"0","r":"0"}));
+    for u in USERS {
+        r.apply(sink, &json!({"m":"faucet","a":u,"d":"IBCTIA","x": "30000000000000000000000000000"}));
+    }
+    for _ in 0..steps {
+        let v = View::of(&r);
+        let user = *USERS.choose(&mut rng).unwrap();
+        let call = match rng.gen_range(0..20) {
+            0..=4 => {
+                let amt = big(&mut rng);
+                let exp = match rng.gen_range(0..4) { 0 => json!(amt.to_string()), 1 => json!("340282366920938463463374607431768211455"), _ => json!(-1) };
+                json!({"m":"liquid_stake","s":user,"funds":[["IBCTIA",amt.to_string()]],"mint_to": *["", "n:u1", "u2"].choose(&mut rng).unwrap(),
+                       "to_native":"none","expected":exp})
+            }
+            5 | 6 => {
+                let have = v.bal(user, "LST");
+                if have == 0 { continue; }
+                let amt = match rng.gen_range(0..3) { 0 => have, 1 => 1, _ => (have / 2).max(1) };
+                json!({"m":"liquid_unstake","s":user,"funds":[["LST",amt.to_string()]]})
+            }
+            7 | 8 => {
+                let mut t = v.now() + rng.gen_range(1..2000);
+                for b in v.batches() {
+                    let due = b["due"].as_i64().unwrap_or(-1);
+                    if due > v.now() as i64 && rng.gen_bool(0.5) { t = due as u64; }
+                }
+                json!({"m":"time","t":t})
+            }
+            9 | 10 => json!({"m":"submit_batch","s":user}),
+            11 | 12 => {
+                let fly = v.fly();
+                if fly.is_empty() { continue; }
+                json!({"m":"ibc_ack","seq":*fly.choose(&mut rng).unwrap(),"outcome":*["ok","ok","err","timeout"].choose(&mut rng).unwrap()})
+            }
+            13 | 14 => {
+                // keep the exchange rate within [10^-3, 10^3]
+                let amt = big(&mut rng);
+                if v.l() == 0 || (v.n().saturating_add(amt)) / v.l().max(1) >= 1000 { continue; }
+                json!({"m":"hook","inner":"receive_rewards","channel":"channel-1","from":"collector","amt":amt.to_string(),"b":0})
+            }
+            15 => {
+                let subs: Vec<Value> = v.batches().into_iter().filter(|b| b["status"] == "submitted").collect();
+                if subs.is_empty() { continue; }
+                let b = subs.choose(&mut rng).unwrap();
+                let exp = ju(b, "expected");
+                let amt = match rng.gen_range(0..3) { 0 => exp.saturating_sub(1).max(1), 1 => exp + 1, _ => exp.max(1) };
+                json!({"m":"hook","inner":"receive_unstaked_tokens","channel":"channel-1","from":"staker","amt":amt.to_string(),"b":ju(b,"id") as u64})
+            }
+            16 => {
+                let nb = v.batches().len() as u64;
+                let rq = v.reqs();
+                if let Some(q) = rq.choose(&mut rng) { json!({"m":"withdraw","s":q["u"],"b":q["b"]}) } else { json!({"m":"withdraw","s":user,"b":rng.gen_range(0..=nb+1)}) }
+            }
+            17 => json!({"m":"recover","s":user,"paginated":*["none","true"].choose(&mut rng).unwrap(),"has_sel":false,"sel":[],"receiver":*["","n:u1"].choose(&mut rng).unwrap()}),
+            18 => {
+                if v.stopped() {
+                    // any totals whose rate stays within [10^-3, 10^3]
+                    let l = big(&mut rng);
+                    let f = rng.gen_range(1..=1000u128);
+                    let n = if rng.gen_bool(0.5) { l.saturating_mul(f).min(1_000_000_000_000_000_000_000_000_000_000) } else { (l / f).max(1) };
+                    let n = if n > l.saturating_mul(1000) { l.saturating_mul(1000) } else { n };
+                    let n = if n.saturating_mul(1000) < l { l / 1000 + 1 } else { n };
+                    json!({"m":"resume_contract","s":"admin","n":n.to_string(),"l":l.to_string(),"r":big(&mut rng).to_string()})
+                } else {
+                    json!({"m":"circuit_breaker","s":*["admin","mon1","u1"].choose(&mut rng).unwrap()})
+                }
+            }
+            _ => {
+                let fees_now = ju(v.c(), "fees");
+                json!({"m":"fee_withdraw","s":"admin","amt": match rng.gen_range(0..3) {0 => fees_now.to_string(), 1 => "340282366920938463463374607431768211455".to_string(), _ => (fees_now / 2).to_string()}})
+            }
+        };
+        r.apply(sink, &call);
+    }
+    r
+}
